@@ -620,3 +620,59 @@ pub fn mx_grow(calls: &[Value], log: &mut Log) {
         }
     }
 }
+
+// ------------------------------------------------------------------------------------------------
+// CsrImpl.tla -> implementation: each exported behaviour (exhaustive small model with a scaled-down cutoff, and
+// simulations with the real cutoff of 32) is replayed on the real Csr; the arrays of the model are exactly what
+// neighbors_slice / edges_slice / edge_count expose, and every call's result is compared too.
+fn csr_one<Ty: petgraph::EdgeType>(sc: &Value) -> Result<Vec<String>, ()> {
+    use petgraph::csr::Csr;
+    guard(|| {
+        let mut diffs = vec![];
+        let mut g: Csr<(), i64, Ty, u32> = Csr::new();
+        for _ in 0..sc["n0"].as_u64().unwrap() {
+            g.add_node(());
+        }
+        for (i, op) in sc["hist"].as_array().unwrap().iter().enumerate() {
+            match op["op"].as_str().unwrap() {
+                "add_node" => { g.add_node(()); }
+                "clear_edges" => g.clear_edges(),
+                _ => {
+                    let (a, b, w) = (op["a"].as_u64().unwrap() as u32, op["b"].as_u64().unwrap() as u32, op["w"].as_i64().unwrap());
+                    let r = match g.try_add_edge(a, b, w) { Ok(true) => "true", Ok(false) => "false", Err(_) => "err" };
+                    if r != op["res"].as_str().unwrap() {
+                        diffs.push(format!("call {} try_add_edge({},{}) returned {} but the model says {}", i, a, b, r, op["res"]));
+                    }
+                }
+            }
+        }
+        let row: Vec<u64> = sc["row"].as_array().unwrap().iter().map(|x| x.as_u64().unwrap()).collect();
+        let col: Vec<u64> = sc["column"].as_array().unwrap().iter().map(|x| x.as_u64().unwrap()).collect();
+        let ew: Vec<i64> = sc["ew"].as_array().unwrap().iter().map(|x| x.as_i64().unwrap()).collect();
+        if g.node_count() != row.len() - 1 { diffs.push(format!("node_count {} vs {}", g.node_count(), row.len() - 1)); }
+        if g.edge_count() as u64 != sc["ec"].as_u64().unwrap() { diffs.push(format!("edge_count {} vs {}", g.edge_count(), sc["ec"])); }
+        for a in 0..g.node_count().min(row.len() - 1) {
+            let (s, e) = (row[a] as usize, row[a + 1] as usize);
+            let ns: Vec<u64> = g.neighbors_slice(a as u32).iter().map(|&x| x as u64).collect();
+            if ns != col[s..e] { diffs.push(format!("neighbors_slice({}) = {:?}, model row {:?}", a, ns, &col[s..e])); }
+            let es: Vec<i64> = g.edges_slice(a as u32).to_vec();
+            if es != ew[s..e] { diffs.push(format!("edges_slice({}) = {:?}, model {:?}", a, es, &ew[s..e])); }
+            if g.out_degree(a as u32) != e - s { diffs.push(format!("out_degree({})", a)); }
+            for b in 0..g.node_count() {
+                let want = col[s..e].contains(&(b as u64));
+                if g.contains_edge(a as u32, b as u32) != want { diffs.push(format!("contains_edge({},{}) = {}", a, b, !want)); }
+            }
+        }
+        diffs
+    })
+}
+
+pub fn csr_replay(scripts: &[Value], log: &mut Log) {
+    for (i, sc) in scripts.iter().enumerate() {
+        let r = if sc["directed"].as_bool().unwrap() { csr_one::<petgraph::Directed>(sc) } else { csr_one::<petgraph::Undirected>(sc) };
+        match r {
+            Ok(d) => log.ev(json!({"i": i, "ok": d.is_empty(), "diffs": d.into_iter().take(4).collect::<Vec<_>>()})),
+            Err(()) => log.ev(json!({"i": i, "ok": false, "diffs": ["panic"]})),
+        }
+    }
+}
